@@ -635,7 +635,11 @@ func (l *Logger) Export() *HAR {
 	curr := l.tail
 	for curr != nil {
 		curr = curr.next
-		es = append(es, curr)
+		// Hand out a copy: the entry in the log is still written to when its
+		// response is recorded, which races with callers reading the export.
+		e := *curr
+		e.next = nil
+		es = append(es, &e)
 		if curr == l.tail {
 			break
 		}
